@@ -78,6 +78,11 @@ VALID_EXTRA = [
     "type Query { a: A } interface I { x: [[I]] } type A implements I { x: [[A!]!]! }",
     "type Query { a(i: In = {x: 1}): Int } input In { x: Int! y: [In!] }",
     "schema { query: Q mutation: M } type Q { a: Int } type M { b: Int }",
+    # recursive input types whose recursion goes through a list (or a nullable field): a finite value exists ([] / omitted) in every version of the rule
+    "type Query { a(f: Filter): Int } input Filter { and: [Filter!]! or: [Filter!] not: Filter eq: Int }",
+    "type Query { a(m: Matrix!): Int } input Matrix { rows: [[Matrix]]! cells: [[Matrix!]!]! }",
+    "type Query { a(n: Node): Int } input Node { edges: [Edge!]! id: ID! } input Edge { to: Node! back: [Node]! }",
+    "type Query { a(n: Outer!): Int } input Outer { inner: Inner! } input Inner { outer: Outer again: [Outer!]! }",
 ]
 
 
